@@ -52,7 +52,21 @@ def run_case(case, ctx):
 	gs = os.path.join(dbdir, 'world.gs')
 	# database configuration variants: any valid SQLite journal mode / page layout is a legitimate genome file
 	mode = case.get('gdb_mode', 'default')
-	if mode != 'default':
+	if mode == 'wal_hot':
+		# the directory was copied while a curator had the genome file open in WAL mode: the last committed transaction still
+		# sits in world.gdb-wal beside the genome file (a valid SQLite database state; every reader sees the committed rows)
+		import sqlite3
+		work = os.path.join(d, 'curator.gdb')
+		shutil.copy(gdb, work)
+		con = sqlite3.connect(work)
+		con.execute('PRAGMA journal_mode=WAL')
+		con.execute('PRAGMA wal_autocheckpoint=0')
+		con.execute("UPDATE genomes SET description = description || ' (curated)'")
+		con.commit()
+		for suf in ('', '-wal', '-shm'):
+			shutil.copy(work + suf, gdb + suf)
+		con.close()
+	elif mode != 'default':
 		import sqlite3
 		con = sqlite3.connect(gdb)
 		if mode == 'wal':
@@ -292,6 +306,10 @@ def run_case(case, ctx):
 			except Exception:
 				pass
 		# final check after everything is closed
+	if mode in ('wal', 'wal_hot'):
+		# connections leaked by the in-process command line are closed by the collector: SQLite checkpoints when the last one closes
+		import gc
+		gc.collect()
 	now = (digest(gdb), digest(gs))
 	shutil.rmtree(d, ignore_errors=True)
 	if now != base:
@@ -337,7 +355,7 @@ STEP = st.one_of(
 def gen_case(draw, tier):
 	w = draw(Wd.world(max_refs=4, min_refs=2, max_queries=3, min_queries=2, nasty_names=False))
 	steps = draw(st.lists(STEP, min_size=5, max_size=25))
-	return {'kind': 'history', 'world': w, 'steps': steps, 'gdb_mode': draw(st.sampled_from(['default', 'wal', 'default', 'persist', 'vacuum_pagesize', 'wal', 'user_version', 'old_layout', 'extra_objects']))}
+	return {'kind': 'history', 'world': w, 'steps': steps, 'gdb_mode': draw(st.sampled_from(['default', 'wal', 'default', 'persist', 'vacuum_pagesize', 'wal', 'user_version', 'old_layout', 'extra_objects', 'wal_hot']))}
 
 
 def strategy(tier):
